@@ -33,7 +33,7 @@ _W = {"world": None, "root": None, "labels": None, "mains": None}
 
 # -- static resources every world may refer to --------------------------------------------
 def static_components(world):
-    world.add_component("zcvpkg_e", "component.xml",
+    world.add_component("zcvsd_e", "component.xml",
                         N("component", {}, [N("sectiontype", {"name": "pe1"}, [N("key", {"name": "k1"})])]))
 
 
@@ -44,9 +44,9 @@ def composed_worlds():
     # 1 component implementing an abstract type of the schema + a derived component type; imported twice
     main = N("schema", {}, [
         N("abstracttype", {"name": "abs1"}),
-        N("import", {"package": "zcvpkg_a"}),
+        N("import", {"package": "zcvsd_a"}),
         N("sectiontype", {"name": "t1", "implements": "abs1"}, [N("key", {"name": "k1", "datatype": "integer"})]),
-        N("import", {"package": "zcvpkg_a"}),
+        N("import", {"package": "zcvsd_a"}),
         N("multisection", {"type": "abs1", "name": "*", "attribute": "impls"}),
         N("section", {"type": "pa2", "name": "two"})])
     comp = N("component", {}, [
@@ -54,7 +54,7 @@ def composed_worlds():
         N("sectiontype", {"name": "pa1", "implements": "abs1"}, [N("key", {"name": "k1"})]),
         N("sectiontype", {"name": "pa2", "extends": "pa1"}, [
             N("multikey", {"name": "m2", "datatype": "integer"}, [N("default", text="4")])])])
-    out.append(("main.xml", {"main.xml": main}, {("zcvpkg_a", "component.xml"): comp}))
+    out.append(("main.xml", {"main.xml": main}, {("zcvsd_a", "component.xml"): comp}))
     # 2 base schemas: two bases with types and items, the extender adds its own; key type from the bases
     b1 = N("schema", {"keytype": "identifier"}, [
         N("sectiontype", {"name": "bt1"}, [N("key", {"name": "k1"})]),
@@ -87,8 +87,8 @@ def composed_worlds():
                                                         N("default", {"key": "beta"}, text="bv")])]),
         N("sectiontype", {"name": "wd1", "extends": "wbase", "keytype": "identifier"}, [N("key", {"name": "own"})]),
         N("abstracttype", {"name": "abs1"}),
-        N("import", {"package": "zcvpkg_d"}),
-        N("import", {"package": "zcvpkg_d", "file": "component.xml"}),
+        N("import", {"package": "zcvsd_d"}),
+        N("import", {"package": "zcvsd_d", "file": "component.xml"}),
         N("multisection", {"type": "abs1", "name": "*", "attribute": "impls"}),
         N("multisection", {"type": "wd1", "name": "+", "attribute": "wds"})])
     comp = N("component", {"prefix": "zcv.dts"}, [
@@ -97,7 +97,7 @@ def composed_worlds():
           [N("multikey", {"name": "+", "attribute": "wm", "datatype": "integer"},
              [N("default", {"key": "a"}, text="1"), N("default", {"key": "A"}, text="2"),
               N("default", {"key": "a"}, text="3")])])])
-    out.append(("main.xml", {"main.xml": main}, {("zcvpkg_d", "component.xml"): comp}))
+    out.append(("main.xml", {"main.xml": main}, {("zcvsd_d", "component.xml"): comp}))
     return out
 
 
@@ -177,7 +177,7 @@ def build_batch(items, start):
             for (pkg, f), t in comps.items():
                 world.add_component(pkg, f, t)
             rid = main
-        mains.append({"rid": rid, "exp": False})
+        mains.append({"rid": rid, "exp": False, "fault": {"rid": "", "n": 0}})
         labels.append(lab)
     return world, mains, labels
 
